@@ -106,6 +106,88 @@ theorem items_fuse (a b : Stage E) (h : a.fusable b = true) :
   simp only [Stage.fusable, Bool.or_eq_true, List.isEmpty_iff] at h
   rcases h with h | h <;> simp [Stage.items, Stage.fuse, h]
 
+/-! ## building through the API keeps the operator list -/
+
+theorem push?_items {s s' : Stage E} {i : Item E} (h : s.push? i = .ok s') : s'.items = s.items ++ [i] := by
+  cases i with
+  | op o =>
+    simp only [Stage.push?] at h
+    split at h
+    · rename_i he
+      cases h
+      simp only [List.isEmpty_iff] at he
+      simp [Stage.items, he]
+    · cases h
+  | agg a =>
+    simp only [Stage.push?] at h
+    cases h
+    simp [Stage.items]
+
+theorem foldlM_push?_items (its : List (Item E)) (s s' : Stage E)
+    (h : its.foldlM Stage.push? s = .ok s') : s'.items = s.items ++ its := by
+  induction its generalizing s with
+  | nil => simp only [List.foldlM_nil] at h; cases h; simp
+  | cons i its ih =>
+    simp only [List.foldlM_cons] at h
+    cases hp : s.push? i with
+    | error e => rw [hp] at h; cases h
+    | ok s1 =>
+      rw [hp] at h
+      have := ih s1 h
+      rw [this, push?_items hp, List.append_assoc]; rfl
+
+theorem mkTransform_items {its : List (Item E)} {s : Stage E} (h : mkTransform its = .ok s) :
+    s.items = its := by
+  have := foldlM_push?_items its Stage.empty s h
+  simpa [Stage.empty, Stage.items] using this
+
+theorem attach_items {p q : List (Stage E)} {how : Attach} {t : Stage E} (h : attach p how t = .ok q) :
+    items q = items p ++ t.items := by
+  unfold attach at h
+  split at h
+  · rename_i l hl
+    cases hf : l.fuse? t with
+    | error e => rw [hf] at h; cases h
+    | ok s =>
+      rw [hf] at h; cases h
+      unfold Stage.fuse? at hf
+      split at hf
+      · rename_i hfu
+        cases hf
+        have hp : p = p.dropLast ++ [l] := by
+          have hne : p ≠ [] := by intro h0; rw [h0] at hl; cases hl
+          have hgl : p.getLast hne = l := by
+            rw [List.getLast?_eq_some_getLast hne] at hl; exact Option.some.inj hl
+          rw [← hgl]; exact (List.dropLast_concat_getLast hne).symm
+        conv => rhs; rw [hp]
+        simp only [items, List.flatMap_append, List.flatMap_cons, List.flatMap_nil, List.append_nil,
+          items_fuse l t hfu, List.append_assoc]
+      · cases hf
+  · cases h
+    simp [items, List.flatMap_append]
+
+theorem assemble_items_from (ts : List (Attach × List (Item E))) (p q : List (Stage E))
+    (h : ts.foldlM (fun p t =>
+        match mkTransform t.2 with
+        | .ok s => attach p t.1 s
+        | .error e => .error e) p = .ok q) :
+    items q = items p ++ ts.flatMap (·.2) := by
+  induction ts generalizing p with
+  | nil => simp only [List.foldlM_nil] at h; cases h; simp
+  | cons t ts ih =>
+    simp only [List.foldlM_cons] at h
+    cases hm : mkTransform t.2 with
+    | error e => rw [hm] at h; cases h
+    | ok s =>
+      rw [hm] at h
+      simp only [] at h
+      cases ha : attach p t.1 s with
+      | error e => rw [ha] at h; cases h
+      | ok p1 =>
+        rw [ha] at h
+        have := ih p1 h
+        rw [this, attach_items ha, mkTransform_items hm, List.flatMap_cons, List.append_assoc]
+
 /-- the output stream of stage `i` is the composition of all operators up to and including stage `i` -/
 theorem stageOuts_getElem? (p : List (Stage E)) (xs : List E) (i : Nat) (hi : i < p.length) :
     (stageOuts p xs)[i]? = some (runOps ((p.take (i + 1)).flatMap Stage.ops) xs) := by
